@@ -338,7 +338,7 @@ func (e *BinaryOpExpr) execStringIn(kv KVPair, ctx *ExecuteCtx) (any, error) {
 			}
 		}
 		return false, nil
-	case *FunctionCallExpr:
+	case *FunctionCallExpr, *FieldReferenceExpr:
 		if rlist.ReturnType() != TLIST {
 			return false, NewExecuteError(rlist.GetPos(), "in operator right expression has wrong type, not list 1")
 		}
@@ -348,12 +348,15 @@ func (e *BinaryOpExpr) execStringIn(kv KVPair, ctx *ExecuteCtx) (any, error) {
 		}
 		vals, ok := fret.([]any)
 		if !ok {
+			vals, ok = unpackArray(fret)
+		}
+		if !ok {
 			return false, NewExecuteError(rlist.GetPos(), "in operator right expression has wrong type, not list 2")
 		}
 		for _, val := range vals {
 			cmp, err := execStringCompare(left, val, "=")
 			if err != nil {
-				return false, nil
+				return false, err
 			}
 			if cmp {
 				return true, nil
@@ -388,7 +391,7 @@ func (e *BinaryOpExpr) execNumberIn(kv KVPair, ctx *ExecuteCtx) (any, error) {
 			}
 		}
 		return false, nil
-	case *FunctionCallExpr:
+	case *FunctionCallExpr, *FieldReferenceExpr:
 		if rlist.ReturnType() != TLIST {
 			return false, NewExecuteError(rlist.GetPos(), "in operator right expression has wrong type, not list")
 		}
@@ -398,12 +401,15 @@ func (e *BinaryOpExpr) execNumberIn(kv KVPair, ctx *ExecuteCtx) (any, error) {
 		}
 		vals, ok := fret.([]any)
 		if !ok {
+			vals, ok = unpackArray(fret)
+		}
+		if !ok {
 			return false, NewExecuteError(rlist.GetPos(), "in operator right expression has wrong type, not list")
 		}
 		for _, val := range vals {
 			cmp, err := execNumberCompare(left, val, "=")
 			if err != nil {
-				return false, nil
+				return false, err
 			}
 			if cmp {
 				return true, nil
